@@ -286,6 +286,47 @@ def generate(unit, template_path, repo=None, canary=False):
         designator = kv['item'][0]
         item = src.find(containers, designator)
         sl = Slice(src, item.start, item.end, (' > '.join(containers) + ' > ' if containers else '') + designator)
+        lifted_sig = None
+        if 'closure' in kv:
+            # R9 closure lifting: the k-th closure literal with a block body inside the item becomes a free function
+            # whose signature (parameters = closure parameters + captures) is given by the template
+            kth = int(kv['closure'][0])
+            stt = src.st
+            cnt = 0
+            found = None
+            i0 = item.body_open if item.body_open is not None else item.a
+            i = i0
+            while i < item.b:
+                t = stt[i]
+                if t.kind == 'p' and t.text == '|' and stt[i - 1].text in ('(', ',', '=', 'move', '{', ';', 'return', '&'):
+                    j = i + 1
+                    if stt[j].text == '|':      # `||`
+                        pe = j
+                    else:
+                        while j < item.b and stt[j].text != '|':
+                            if stt[j].text in ('(', '[', '{'):
+                                j = match_close(stt, j)
+                            j += 1
+                        pe = j
+                    if stt[pe + 1].text == '{':
+                        cnt += 1
+                        if cnt == kth:
+                            found = (i, pe, pe + 1, match_close(stt, pe + 1))
+                            break
+                        i = pe + 1
+                        continue
+                    i = pe
+                i += 1
+            if not found:
+                raise AnchorError(f'{path}: closure #{kth} not found in {designator}')
+            ci, pe, bo, bc = found
+            cparams = [t.text for t in stt[ci + 1:pe] if t.kind == 'id']
+            lifted_sig = kv['sig'][0]
+            for cp in cparams:
+                if not re.search(r'\b' + re.escape(cp) + r'\s*:', lifted_sig):
+                    raise AnchorError(f'{path}: closure #{kth} of {designator}: parameter `{cp}` missing from the lifted signature')
+            sl = Slice(src, stt[bo].start, stt[bc].end, (' > '.join(containers) + ' > ' if containers else '') + designator + f' > closure #{kth}')
+            count('R9', 1)
         g.slices.append(sl)
         rewrites = list(dflt['rewrites'])
         ghost, ghostarg = dflt['ghost'], dflt['ghostarg']
@@ -306,7 +347,9 @@ def generate(unit, template_path, repo=None, canary=False):
         fi.props = props
         fi.is_fn = designator.startswith('fn ')
         local_heap = set(heapmethods)
-        body = sl.text
+        body = sl.text if lifted_sig is None else lifted_sig + ' ' + sl.text
+        if lifted_sig is not None:
+            fi.is_fn = True
         user_rw = []
         spec_dir = None
         loop_dirs = {}
